@@ -38,45 +38,6 @@ func dispatcherRule(p *Prog, r *Report, rule string) {
 	if L.VarObj != nil {
 		keyVar = L.VarObj.Name()
 	}
-	// guards of the launch
-	var slot *Cond
-	for _, g := range flattenGuards(launch.Guards) {
-		mentionsKey := false
-		condAtoms(g, func(a *Atom) {
-			if a.Kind == "loop" && a.Root == keyVar {
-				mentionsKey = true
-			}
-		})
-		if mentionsKey {
-			continue // line-range filter (start/end line): checked under C17
-		}
-		if g.Kind != "cmp" {
-			r.Ob("launch-guard", p.Pos(launch.Pos), false, "launch is guarded by an unanalysable condition "+g.Key())
-			continue
-		}
-		if g.Loop && g.Op == token.NEQ {
-			continue
-		}
-		if slot != nil && !slot.P.Equal(g.P) {
-			r.Ob("launch-guard", p.Pos(launch.Pos), false, "launch has a second independent guard "+g.Key()+": a batch line may be skipped")
-			continue
-		}
-		if g.Op == token.LSS || g.Op == token.GTR {
-			slot = g
-		}
-	}
-	if slot == nil {
-		r.Ob("launch-guard", p.Pos(launch.Pos), true, "launch is unconditional for lines in range")
-	} else {
-		// implied by loop exit P != 0 on the same polynomial
-		exit := false
-		for _, g := range flattenGuards(launch.Guards) {
-			if g.Kind == "cmp" && g.Loop && g.Op == token.NEQ && g.P.Equal(slot.P) {
-				exit = true
-			}
-		}
-		r.Ob("launch-guard", p.Pos(launch.Pos), exit, fmt.Sprintf("launch guard %s; preceded by a wait loop that can only be left with %s != 0: %v (with the counter invariant the guard then always holds, so no line is skipped)", slot.Key(), slot.P, exit))
-	}
 	// the counter: the variable incremented under the slot guard next to the launch
 	var counter types.Object
 	for _, e := range x.Events {
@@ -88,6 +49,75 @@ func dispatcherRule(p *Prog, r *Report, rule string) {
 		r.Ob("counter", p.Pos(launch.Pos), false, "no active-run counter is incremented next to the launch")
 		return
 	}
+	// guards of the launch: besides the line-range filter and the wait loop's exit, at most one slot test on the
+	// counter, in a form the counter invariant (0 ≤ active ≤ limit) together with the wait loop's exit implies
+	// the counter occurs in guards as a loop-versioned atom: match by name
+	counterIn := func(P Poly) (sign int, rest Poly, ok bool) {
+		rest = P
+		for _, t := range P.T {
+			if len(t.M) == 1 && t.M[0].A.Root == counter.Name() && t.M[0].E == 1 && len(t.M[0].A.Idx) == 0 {
+				if ok {
+					return 0, P, false
+				}
+				sign, ok = t.C.Sign(), true
+				rest = P.Sub(Poly{T: map[string]*Term{}}.Add(PAtom(t.M[0].A).Scale(t.C)))
+				if !t.C.IsInt() || (t.C.Num().Int64() != 1 && t.C.Num().Int64() != -1) {
+					return 0, P, false
+				}
+			}
+		}
+		return
+	}
+	nSlot := 0
+	okSlot := true
+	det := ""
+	exitP := Poly{}
+	hasExit := false
+	for _, g := range flattenGuards(launch.Guards) {
+		if _, _, isC := counterIn(g.P); g.Kind == "cmp" && g.Loop && g.Op == token.NEQ && isC {
+			exitP, hasExit = stripVersions(g.P), true
+		}
+	}
+	for _, g := range flattenGuards(launch.Guards) {
+		mentionsKey := false
+		condAtoms(g, func(a *Atom) {
+			if a.Kind == "loop" && a.Root == keyVar {
+				mentionsKey = true
+			}
+		})
+		if mentionsKey {
+			continue // line-range filter (start/end line): checked under C17
+		}
+		if g.Kind == "cmp" && g.Loop && g.Op == token.NEQ {
+			continue
+		}
+		if g.Kind != "cmp" {
+			okSlot = false
+			det += "launch is guarded by an unanalysable condition " + g.Key() + "; "
+			continue
+		}
+		nSlot++
+		// orientation: coefficient of the counter
+		sign, _, _ := counterIn(g.P)
+		good := false
+		switch {
+		case sign > 0:
+			good = g.Op == token.LSS || g.Op == token.LEQ || g.Op == token.NEQ
+		case sign < 0:
+			good = g.Op == token.GTR || g.Op == token.GEQ || g.Op == token.NEQ
+		}
+		same := hasExit && (stripVersions(g.P).Equal(exitP) || stripVersions(g.P).Equal(exitP.Neg()))
+		if !good || !same {
+			okSlot = false
+			det += fmt.Sprintf("launch guard %s is not implied by leaving the wait loop (%v) with active ≤ limit: a batch line can be skipped; ", g.Key(), hasExit)
+		} else {
+			det += fmt.Sprintf("launch guard %s follows from the wait loop's exit and the counter invariant; ", g.Key())
+		}
+	}
+	if nSlot == 0 {
+		det = "launch is unconditional for lines in range"
+	}
+	r.Ob("launch-guard", p.Pos(launch.Pos), okSlot && nSlot <= 1, det)
 	// result channel: argument of the launch that has channel type with element *RunReturn
 	var resObj types.Object
 	for _, a := range launch.Call.Args {
@@ -267,16 +297,12 @@ func dispatcherRule(p *Prog, r *Report, rule string) {
 	drain := false
 	for _, l := range loopsOf(x) {
 		if l.Cond != nil && l.Cond.Kind == "cmp" && l.Stmt.Pos() > L.Stmt.End() {
-			if isCmp(l.Cond, l.Cond.P, token.GTR) {
-				mentions := false
-				l.Cond.P.walkAtoms(func(a *Atom) {
-					if a.Root == counter.Name() {
-						mentions = true
-					}
-				})
-				if mentions {
-					drain = true
-				}
+			// exactly "counter > 0" (or counter != 0, counter >= 1): a weaker test leaves the last run(s) unawaited
+			sg, rest, isC := counterIn(l.Cond.P)
+			c0, isConst := rest.ConstInt()
+			if isC && isConst && ((sg > 0 && c0 == 0 && (l.Cond.Op == token.GTR || l.Cond.Op == token.NEQ)) || (sg < 0 && c0 == 0 && (l.Cond.Op == token.LSS || l.Cond.Op == token.NEQ)) ||
+				(sg > 0 && c0 == -1 && l.Cond.Op == token.GEQ) || (sg < 0 && c0 == 1 && l.Cond.Op == token.LEQ)) {
+				drain = true
 			}
 		}
 	}
